@@ -2,7 +2,11 @@
 // -DAMPL_MP_VERIF) under a deterministic signal schedule and prints what happened.
 //
 // stdin : one case per line   "<mode> <macro> <macro> ... | <gap>:<sig> <gap>:<sig> ..."
-//           mode  : bsd | sysv      semantics given to signal(2) by the interposed ::signal below
+//           mode  : (bsd | sysv)[/(file|pipe|null|closed|full|ro)]   semantics given to signal(2) by the interposed
+//                   ::signal below, and what fd 1 is while the program runs (default file; closed/full/ro make
+//                   write(1, ...) fail; observations never travel through fd 1 but through a status pipe);
+//                   a third component /ign (after an explicit stdout state) starts the program with SIGINT and
+//                   SIGTERM inherited as ignored (state flags I2/T2) instead of the default action
 //           macro : C               new SignalHandler(solver)
 //                   R:<h>:<d>       solver.interrupter()->SetHandler(cb_h, &data_d)   (h = 0: null callback, d = 0: null data)
 //                   W               opaque solve/report step; queries solver.interrupter()->Stop()
@@ -129,30 +133,63 @@ static std::string state() {
   const char *ik = (g_sh && it == static_cast<mp::Interrupter *>(g_sh)) ? "O" : it == g_self ? "S" : "X";
   struct sigaction a;
   int di, dt;
-  sigaction(SIGINT, 0, &a);  di = a.sa_handler == Stash<FnTag>::value ? 1 : a.sa_handler == SIG_DFL ? 0 : 9;
-  sigaction(SIGTERM, 0, &a); dt = a.sa_handler == Stash<FnTag>::value ? 1 : a.sa_handler == SIG_DFL ? 0 : 9;
+  sigaction(SIGINT, 0, &a);  di = a.sa_handler == Stash<FnTag>::value ? 1 : a.sa_handler == SIG_DFL ? 0 : a.sa_handler == SIG_IGN ? 2 : 9;
+  sigaction(SIGTERM, 0, &a); dt = a.sa_handler == Stash<FnTag>::value ? 1 : a.sa_handler == SIG_DFL ? 0 : a.sa_handler == SIG_IGN ? 2 : 9;
   snprintf(buf, sizeof buf, "[s%d,h%d,d%d,p%s,z%u,i%s,I%d,T%d]", (int)*Stash<StopTag>::value,
            handler_id(*Stash<HandlerTag>::value), data_id(*Stash<DataTag>::value), pk,
            (unsigned)*Stash<SizeTag>::value, ik, di, dt);
   return buf;
 }
 
-static std::string captured_since(off_t from) {
-  off_t end = lseek(g_cap, 0, SEEK_END);
-  if (end == from) return "0";
-  std::string s((size_t)(end - from), '\0');
-  if (pread(g_cap, &s[0], s.size(), from) != (ssize_t)s.size()) return "?";
-  std::string out;
+// stdout states (environment dimension): what fd 1 is while the program runs
+//   file (default): a memfd, break text captured by offset;  pipe: a pipe, captured by draining the read end;
+//   null: /dev/null (writable, nothing observable: printed as brk=~);
+//   closed: fd 1 closed;  full: /dev/full (ENOSPC);  ro: fd 1 open read-only  -- write(1, ...) fails: brk=E
+enum OutKind { OUT_FILE, OUT_PIPE, OUT_NULL, OUT_CLOSED, OUT_FULL, OUT_RO };
+static OutKind g_outkind = OUT_FILE;
+static int g_capr = -1;           // read end of the capture pipe (OUT_PIPE)
+
+static std::string classify(const std::string &s) {
   size_t L = sizeof(kBreak) - 1;
+  if (s.empty()) return "0";
   if (s.size() == L && s == kBreak) return std::to_string(L);
   return "?" + std::to_string(s.size());
+}
+
+static std::string drain_pipe(int fd) {
+  std::string s;
+  char buf[512];
+  ssize_t r;
+  while ((r = read(fd, buf, sizeof buf)) > 0) s.append(buf, (size_t)r);
+  return s;
+}
+
+static off_t cap_mark() {
+  if (g_outkind == OUT_FILE) return lseek(g_cap, 0, SEEK_END);
+  if (g_outkind == OUT_PIPE) drain_pipe(g_capr);
+  return 0;
+}
+
+static std::string captured_since(off_t from) {
+  switch (g_outkind) {
+  case OUT_FILE: {
+    off_t end = lseek(g_cap, 0, SEEK_END);
+    if (end == from) return "0";
+    std::string s((size_t)(end - from), '\0');
+    if (pread(g_cap, &s[0], s.size(), from) != (ssize_t)s.size()) return "?";
+    return classify(s);
+  }
+  case OUT_PIPE: return classify(drain_pipe(g_capr));
+  case OUT_NULL: return "~";
+  default: return "E";
+  }
 }
 
 static void deliver_due() {
   while (g_next < g_sched.size() && g_sched[g_next].gap == g_step) {
     int sig = g_sched[g_next].sig;
     ++g_next;
-    off_t from = lseek(g_cap, 0, SEEK_END);
+    off_t from = cap_mark();
     int ncb0 = g_ncb, nsc0 = g_nsigcalls;
     char head[64];
     snprintf(head, sizeof head, " !%c@%ld(", sig == SIGINT ? 'I' : 'T', (long)from);
@@ -259,7 +296,16 @@ int main(int argc, char **argv) {
     std::string mode = toks.empty() ? "" : toks[0];
     std::vector<std::string> prog;
     std::vector<Sched> sched;
+    std::string outs = "file";
+    std::string inh = "dfl";
+    { size_t sl = mode.find('/'); if (sl != std::string::npos) { outs = mode.substr(sl + 1); mode = mode.substr(0, sl); } }
+    { size_t sl = outs.find('/'); if (sl != std::string::npos) { inh = outs.substr(sl + 1); outs = outs.substr(0, sl); } }
     bool bad = (mode != "bsd" && mode != "sysv"), insched = false;
+    OutKind ok = OUT_FILE;
+    if (outs == "file") ok = OUT_FILE; else if (outs == "pipe") ok = OUT_PIPE; else if (outs == "null") ok = OUT_NULL;
+    else if (outs == "closed") ok = OUT_CLOSED; else if (outs == "full") ok = OUT_FULL; else if (outs == "ro") ok = OUT_RO;
+    else bad = true;
+    if (inh != "dfl" && inh != "ign") bad = true;
     for (size_t k = 1; k < toks.size() && !bad; ++k) {
       if (toks[k] == "|") { insched = true; continue; }
       if (!insched) prog.push_back(toks[k]);
@@ -296,6 +342,9 @@ int main(int argc, char **argv) {
     if (pipe(pfd) < 0) { perror("pipe"); return 2; }
     int capfd = memfd_create("c15cap", 0);
     if (capfd < 0) { perror("memfd_create"); return 2; }
+    int cpipe[2] = {-1, -1};
+    if (ok == OUT_PIPE && pipe2(cpipe, O_NONBLOCK) < 0) { perror("pipe2"); return 2; }
+    g_outkind = ok;
     fflush(stdout);
     pid_t pid = fork();
     if (pid < 0) { perror("fork"); return 2; }
@@ -303,13 +352,28 @@ int main(int argc, char **argv) {
       close(pfd[0]);
       g_out = pfd[1];
       g_cap = dup(capfd);
-      dup2(capfd, 1);
+      switch (ok) {
+      case OUT_FILE: dup2(capfd, 1); break;
+      case OUT_PIPE: dup2(cpipe[1], 1); close(cpipe[1]); g_capr = cpipe[0]; break;
+      case OUT_NULL: { int fd = open("/dev/null", O_WRONLY); if (fd < 0) _exit(92); dup2(fd, 1); close(fd); break; }
+      case OUT_CLOSED: close(1); break;
+      case OUT_FULL: { int fd = open("/dev/full", O_WRONLY); if (fd < 0) _exit(92); dup2(fd, 1); close(fd); break; }
+      case OUT_RO: { int fd = open("/dev/null", O_RDONLY); if (fd < 0) _exit(92); dup2(fd, 1); close(fd); break; }
+      }
       g_sched = sched;
+      if (inh == "ign") {      // the process was started with SIGINT/SIGTERM ignored (background job of a non-interactive shell)
+        struct sigaction sa;
+        memset(&sa, 0, sizeof sa);
+        sa.sa_handler = SIG_IGN;
+        sigaction(SIGINT, &sa, 0);
+        sigaction(SIGTERM, &sa, 0);
+      }
       // restore default dispositions (the parent has none installed, but be explicit)
       run_child(mode, prog);
       _exit(93);
     }
     close(pfd[1]);
+    if (cpipe[1] >= 0) close(cpipe[1]);
     std::string out;
     char buf[4096];
     ssize_t r;
@@ -327,12 +391,14 @@ int main(int argc, char **argv) {
         out += std::string("killed=") + (sg == SIGINT ? "I" : sg == SIGTERM ? "T" : std::to_string(sg)) + ")";
       } else {
         g_cap = capfd;
+        g_capr = cpipe[0];     // the child drained the pipe before raise(): what is left was written by this delivery
         out += "brk=" + captured_since((off_t)from) + ",exit=" + std::to_string(WEXITSTATUS(st)) + ")";
       }
     } else if (!(WIFEXITED(st) && WEXITSTATUS(st) == 0)) {
       out += WIFSIGNALED(st) ? " died-signal=" + std::to_string(WTERMSIG(st)) : " died-exit=" + std::to_string(WEXITSTATUS(st));
     }
     close(capfd);
+    if (cpipe[0] >= 0) close(cpipe[0]);
     // strip the "@off" parts (offsets are not part of the canonical output)
     std::string canon;
     for (size_t i = 0; i < out.size(); ++i) {
